@@ -8,6 +8,7 @@ use egglog::EGraph;
 
 pub mod c01;
 pub mod c03;
+pub mod c04;
 pub mod c10;
 pub mod c13;
 pub mod c14;
